@@ -24,7 +24,7 @@ C = [-1., -.5, .5, 1., 2., .25, 0., 0.]
 def cases(draw, tier):
     r = draw(gentopo.recipes(kinds=['line', 'rect', 'rect', 'tri', 'tri', 'mixed', 'multipatch', 'periodic', 'rect3', 'simplex3'], maxops=2, ops=('refine', 'refined_by', 'refined_by', 'trim', 'trim'), maxn=2))
     coeffs = [[draw(st.sampled_from(C)) for _ in range(10)] for _ in range(4)]   # scalar field + 3 vector components
-    return dict(mesh=r, coeffs=coeffs, gdeg=draw(st.sampled_from([2, 3])), gbasis=draw(st.sampled_from([None, None, None, 0, 1])))
+    return dict(mesh=r, coeffs=coeffs, gdeg=draw(st.sampled_from([2, 3])), gbasis=draw(st.sampled_from([None, None, None, 0, 1, 2])))
 
 
 class Poly:
@@ -70,13 +70,20 @@ def check(case, rec):
         if gb is not None and r['kind'] != 'periodic':
             # the same geometry map represented exactly as an expansion in a degree-2 basis of the base mesh (0) or of its uniform refinement (1);
             # the topology on which everything is evaluated is a (further) refinement of that mesh
-            B = topo0 if gb == 0 else topo0.refined
+            if gb == 2:
+                # a hierarchically refined mesh (elements of two levels: the linear parts of its transforms differ from element to element) carries the
+                # geometry; everything is evaluated on the uniform second refinement of the base mesh
+                if len(topo0) > 4 or r['kind'] in ('multipatch',): raise Discard('mesh-too-large-for-a-projected-geometry')
+                B = topo0.refined_by([len(topo0) - 1])
+                topo = topo0.refined.refined; applied = [['refine'], ['refine']]
+            else:
+                B = topo0 if gb == 0 else topo0.refined
             if len(B) > 64: raise Discard('mesh-too-large-for-a-projected-geometry')
             if gb == 1:
                 topo, applied = gentopo.apply_ops(B, xi, r['ops'])
                 applied = [['refine']] + applied
             try:
-                gbasis = B.basis('std', degree=2)
+                gbasis = B.basis('h-std' if gb == 2 else 'std', degree=2)
                 geom = numpy.stack([gbasis @ B.project(geom[i], onto=gbasis, geometry=xi, degree=6) for i in range(d)])
             except Exception as e:
                 raise Discard('geometry-projection-not-available')
@@ -143,6 +150,29 @@ def check(case, rec):
                 want_s = pg - N * (pg * N).sum(1)[:, None]
                 if abs(numpy.asarray(sgr) - want_s).max() > tol * scale * 10:
                     raise Violation('surfgrad', f'{what}: surface gradient differs from tangential projection of p\' by {abs(numpy.asarray(sgr) - want_s).max():.3e}', where='surfgrad:' + r['kind'])
+            # a field that lives on the boundary only (expanded in a basis of the boundary topology, a manifold of codimension 1): its gradient with
+            # respect to the volume geometry is defined along the surface, where it must agree with the tangential part of p'(x)
+            if d >= 2 and not applied and case.get('gbasis') is None and r['geom']['kind'] != 'quadratic' and r['kind'] in ('rect', 'tri', 'mixed', 'rect3', 'simplex3'):
+                p2 = Poly(d, [c_ if sum(e_) <= 2 else 0. for c_, e_ in zip(case['coeffs'][0], EXPS[d])])
+                mb = bnd
+                if r['kind'] in ('rect', 'rect3'):
+                    mb = topo.boundary[('left', 'top', 'right', 'bottom')[case['gdeg'] % 2 * 2 + int(case['coeffs'][1][0] > 0)]]      # one side: the union of the sides has no basis
+                try:
+                    bb = mb.basis('std', degree=2)
+                except (AttributeError, NotImplementedError):
+                    bb = None      # no basis on this kind of boundary topology
+                if bb is not None:
+                    try:
+                        fb = bb @ mb.project(p2.nutils(geom), onto=bb, geometry=geom, degree=6)
+                        ms = mb.sample('gauss', case['gdeg'])
+                        Gb, Nm, Xm = (numpy.asarray(q) for q in ms.eval([function.grad(fb, geom), n, geom]))
+                    except Exception as e:
+                        raise Violation('eval-raised', f'{what}: gradient of a field on a boundary basis: {type(e).__name__}: {str(e)[:300]}', where='manifold-basis:' + type(e).__name__)
+                    pg2 = numpy.stack([p2(Xm, (k,)) for k in range(d)], axis=1)
+                    tang = lambda V: V - Nm * (V * Nm).sum(1)[:, None]
+                if bb is not None and abs(tang(Gb) - tang(pg2)).max() > 1e-8 * scale * 10:
+                    raise Violation('manifold-basis-gradient', f'{what}: tangential gradient of a field expanded in a boundary basis differs from the tangential part of p\'(x) by {abs(tang(Gb) - tang(pg2)).max():.3e}', where='manifold-basis:' + r['kind'])
+                if bb is not None: rec.label('manifold-basis-gradient')
             flux = float(bnd.integrate((vf * n).sum(-1) * function.J(geom), degree=14))
             vol = float(topo.integrate(function.div(vf, geom) * function.J(geom), degree=14))
             if abs(flux - vol) > 1e-10 * (1 + abs(vol)):
